@@ -260,3 +260,175 @@ func HC05_statements() {
 	vfAssert(okPH, "C05/as-many-placeholders-as-arguments-numbered-1-to-n")
 	vfAssert(okNames, "C05/statements-name-only-the-table-and-its-columns")
 }
+
+// ---- three-valued evaluation of a generated WHERE condition on symbolic values
+
+type c05Val struct {
+	null bool
+	v    int64
+}
+
+type c05TV struct{ t, f bool } // true / false; neither = unknown
+
+type c05Parser struct {
+	toks []string
+	pos  int
+	cols map[string]c05Val // column values of the row
+	args []c05Val          // $1, $2, ...
+}
+
+func c05Tokens(s string) []string {
+	var out []string
+	i := 0
+	for i < len(s) {
+		c := s[i]
+		switch {
+		case c == ' ' || c == '\n' || c == '\t':
+			i++
+		case c == '(' || c == ')' || c == '=':
+			out = append(out, string(c))
+			i++
+		default:
+			j := i
+			for j < len(s) && s[j] != ' ' && s[j] != '\n' && s[j] != '\t' && s[j] != '(' && s[j] != ')' && s[j] != '=' {
+				j++
+			}
+			out = append(out, s[i:j])
+			i = j
+		}
+	}
+	return out
+}
+
+func (p *c05Parser) peek() string {
+	if p.pos < len(p.toks) {
+		return p.toks[p.pos]
+	}
+	return ""
+}
+
+func (p *c05Parser) operand() c05Val {
+	t := p.toks[p.pos]
+	p.pos++
+	if t[0] == '$' {
+		n := 0
+		for _, ch := range t[1:] {
+			n = n*10 + int(ch-'0')
+		}
+		return p.args[n-1]
+	}
+	v, ok := p.cols[strings.ToLower(t)]
+	if !ok {
+		panic("unknown column in condition: " + t)
+	}
+	return v
+}
+
+func (p *c05Parser) factor() c05TV {
+	if p.peek() == "(" {
+		p.pos++
+		r := p.expr()
+		if p.peek() != ")" {
+			panic("missing ) in condition")
+		}
+		p.pos++
+		return r
+	}
+	a := p.operand()
+	if strings.ToUpper(p.peek()) == "IS" {
+		p.pos += 2 // IS NULL
+		return c05TV{t: a.null, f: !a.null}
+	}
+	if p.peek() != "=" {
+		panic("unsupported operator in condition: " + p.peek())
+	}
+	p.pos++
+	b := p.operand()
+	known := vfAnd(!a.null, !b.null)
+	return c05TV{t: vfAnd(known, a.v == b.v), f: vfAnd(known, a.v != b.v)}
+}
+
+func (p *c05Parser) term() c05TV {
+	r := p.factor()
+	for strings.ToUpper(p.peek()) == "AND" {
+		p.pos++
+		s := p.factor()
+		r = c05TV{t: vfAnd(r.t, s.t), f: vfOr(r.f, s.f)}
+	}
+	return r
+}
+
+func (p *c05Parser) expr() c05TV {
+	r := p.term()
+	for strings.ToUpper(p.peek()) == "OR" {
+		p.pos++
+		s := p.term()
+		r = c05TV{t: vfOr(r.t, s.t), f: vfAnd(r.f, s.f)}
+	}
+	return r
+}
+
+// HC05_linkDelete: the Delete statement of a link table removes exactly the rows whose foreign
+// keys equal those of the item, a NULL key matching only NULL (SQL three-valued logic), for
+// every value of the row and of the item.
+func HC05_linkDelete() {
+	pkg := skelPkg()
+	named := skelNamed(pkg, "Link", types.NewStruct(nil, nil))
+	idA := an.VfNewNamed(skelNamed(pkg, "IdA", types.Typ[types.Int64]), &an.Basic{B: types.Typ[types.Int64]})
+	// nullable key: struct {Valid bool; Int64 int64} with a foreign tag
+	valid := types.NewField(0, pkg, "Valid", types.Typ[types.Bool], false)
+	data := types.NewField(0, pkg, "Int64", types.Typ[types.Int64], false)
+	nn := skelNamed(pkg, "OptID", types.NewStruct([]*types.Var{valid, data}, nil))
+	opt := &an.Struct{Name: nn, Fields: []an.StructField{{Type: an.Bool, Field: valid}, {Type: &an.Basic{B: types.Typ[types.Int64]}, Field: data}}}
+	fields := []skelField{{name: "IdA", typ: idA}}
+	nullableFirst := vfChoice("nullableFirst", 2) == 1
+	optField := skelField{name: "Opt", typ: opt, extra: ` gomacro-sql-foreign:"B"`}
+	if nullableFirst {
+		fields = []skelField{optField, fields[0]}
+	} else {
+		fields = append(fields, optField)
+	}
+	if vfChoice("extra", 2) == 1 {
+		fields = append(fields, skelField{name: "Note", typ: an.String})
+	}
+	st := skelStruct(pkg, named, fields)
+	ana := &an.Analysis{Pkg: &packages.Package{PkgPath: pkg.Path(), Types: pkg}, Types: map[types.Type]an.Type{named: st}, Source: []types.Type{named}}
+	text := skelDeclsText(Generate(ana, false))
+	i := strings.Index(text, "DELETE FROM links WHERE ")
+	vfAssert(i >= 0, "C05/link-table-has-a-delete-statement")
+	if i < 0 {
+		return
+	}
+	rest := text[i+len("DELETE FROM links WHERE "):]
+	end := strings.Index(rest, ";")
+	cond := rest[:end]
+	argText := rest[end:]
+	argText = argText[strings.Index(argText, ",")+1:]
+	argText = argText[:strings.Index(argText, ")")]
+	vfObserve("cond", cond)
+	vfObserve("args", argText)
+
+	// symbolic row and item
+	row := map[string]c05Val{
+		"ida": {v: vfInt("row.ida", -2, 2)},
+		"opt": {null: vfBool("row.opt.null"), v: vfInt("row.opt", -2, 2)},
+	}
+	item := map[string]c05Val{
+		"ida": {v: vfInt("item.ida", -2, 2)},
+		"opt": {null: vfBool("item.opt.null"), v: vfInt("item.opt", -2, 2)},
+	}
+	var args []c05Val
+	for _, a := range strings.Split(argText, ",") {
+		a = strings.TrimSpace(a)
+		vfAssert(strings.HasPrefix(a, "item."), "C05/delete-arguments-are-item-fields")
+		args = append(args, item[strings.ToLower(strings.TrimPrefix(a, "item."))])
+	}
+	p := &c05Parser{toks: c05Tokens(cond), cols: row, args: args}
+	got := p.expr()
+	// reference: every foreign key equal, NULL matching only NULL
+	same := func(a, b c05Val) bool {
+		return vfOr(vfAnd(a.null, b.null), vfAnd(vfAnd(!a.null, !b.null), a.v == b.v))
+	}
+	want := vfAnd(same(row["ida"], item["ida"]), same(row["opt"], item["opt"]))
+	vfAssert(got.t == want, "C05/link-delete-removes-exactly-the-rows-with-the-same-keys")
+}
